@@ -66,6 +66,12 @@ class C15(Prop):
     def generate(self, tier, rng):
         N = 3000 if tier == "quick" else 40000
         alpha = [Fraction(k, 2) for k in range(-4, 5)]
+        for n in ([70001] if tier == "quick" else [65537, 70001, 131073]):
+            # one long vector per run (any chunking of the evaluation must cover every element)
+            ys = [alpha[(7 * i + i // 9) % 9] for i in range(n)]
+            zs = [alpha[(5 * i + 2) % 9] for i in range(n)]
+            zs[-1], ys[-1] = Fraction(2), Fraction(-2)
+            yield {"stream": "pairs", "f": rng.choice(["mean", "quantile"]), "level": "1/4", "eta": "1/2", "y": [str(v) for v in ys], "z": [str(v) for v in zs]}
         for k in range(N):
             n = rng.randint(1, 10)
             ys = [rng.choice(alpha) for _ in range(n)]
